@@ -173,4 +173,53 @@ func init() {
 	})
 }
 
+var strLitRe = regexp.MustCompile(`"(?:[^"]|"")*"`)
+
+func modelFunStrings(model, name string) []string {
+	i := strings.Index(model, "(define-fun "+name+" ")
+	if i < 0 {
+		return nil
+	}
+	rest := model[i:]
+	if j := strings.Index(rest[1:], "(define-fun "); j > 0 {
+		rest = rest[:j+1]
+	}
+	var out []string
+	for _, l := range strLitRe.FindAllString(rest, -1) {
+		if b, _ := smtStringToBytes(l); len(b) > 0 && len(b) < 200 {
+			out = append(out, hex.EncodeToString(b))
+		}
+	}
+	return out
+}
+
+func init() {
+	replayDrivers = append(replayDrivers, replayDriver{
+		match: func(n string) bool {
+			return strings.Contains(n, "CanRedirectToURL#C13.host") || strings.Contains(n, "CorsOriginAllowed#C13.cors-host")
+		},
+		run: func(r *Report, o *Obligation, sr *SolveResult) ReplayResult {
+			obs := parseObserved(sr.Model, o.Observe)
+			var hosts, domains []string
+			for k, v := range obs {
+				if hx, _ := hexOfSMTString(v); strings.HasPrefix(v, "\"") {
+					if strings.HasPrefix(k, "host") {
+						hosts = append(hosts, hx)
+					} else if strings.HasPrefix(k, "domain") {
+						domains = append(domains, hx)
+					}
+				}
+			}
+			if len(hosts) == 0 || len(domains) == 0 {
+				return ReplayResult{Summary: fmt.Sprintf("model gives no host/domain strings (observed: %v)", obs)}
+			}
+			hj, _ := json.Marshal(hosts)
+			dj, _ := json.Marshal(domains)
+			in := map[string]string{"hosts": string(hj), "domains": string(dj)}
+			out, conf := goReplay(r, "cmd/keymasterd", "keymasterd_replay_test.go", "TestVerifReplayCanRedirectHost", in)
+			return ReplayResult{Confirmed: conf, Summary: replaySummary(out), Inputs: in, Output: truncate(out, 4000), Driver: "TestVerifReplayCanRedirectHost"}
+		},
+	})
+}
+
 var intRe = regexp.MustCompile(`\(?-?[0-9]+\)?`)
